@@ -42,6 +42,8 @@ pub enum Edit {
     ReadMoreVia(u8, usize),
     /// Overwrite the content through as_mut_slice.
     Scribble,
+    /// Use the buffer as the source of a write: the kernel must read exactly the held bytes.
+    WriteOut,
 }
 
 #[derive(Clone, Debug, PartialEq, Eq)]
@@ -170,6 +172,24 @@ impl C15World {
         let got = b.to_vec();
         let (len, cap, empty) = (b.len(), b.capacity(), b.is_empty());
         let ptr = b.as_ptr() as usize;
+        let view_wrong: Option<String> = {
+            // Every read-only view is the same bytes at the same place.
+            use std::borrow::Borrow;
+            let views: [(&str, &[u8]); 4] = [("as_slice", b.as_slice()), ("AsRef", AsRef::<[u8]>::as_ref(b)), ("Borrow", Borrow::<[u8]>::borrow(b)), ("Deref", &b[..])];
+            let mut wrong = None;
+            for (name, v) in views {
+                if v != &got[..] || (!v.is_empty() && v.as_ptr() as usize != ptr) {
+                    wrong = Some(format!("after {what}: the {name} view shows {v:02x?} at {:#x}, the buffer holds {got:02x?} at {ptr:#x}", v.as_ptr() as usize));
+                    break;
+                }
+            }
+            // As a write source (Buf): exactly the held bytes.
+            let (pp, pl) = unsafe { a10::io::Buf::parts(b) };
+            if pl as usize != got.len() || (pl > 0 && pp as usize != ptr) || a10::io::Buf::len(b) != got.len() || a10::io::Buf::is_empty(b) != got.is_empty() {
+                wrong = Some(format!("after {what}: Buf::parts() = ({:#x}, {pl}), len()={}, the buffer holds {} bytes at {ptr:#x}", pp as usize, a10::io::Buf::len(b), got.len()));
+            }
+            wrong
+        };
         if got != self.model {
             let (m, g) = (format!("{:02x?}", self.model), format!("{got:02x?}"));
             self.bad("content-differs", format!("after {what}: ReadBuf holds {g}, a byte vector would hold {m}"));
@@ -179,6 +199,9 @@ impl C15World {
         }
         if ptr != self.slot_addr && c.buf_size != 0 {
             self.bad("moved", format!("after {what}: the buffer moved from {:#x} to {ptr:#x}", self.slot_addr));
+        }
+        if let Some(m) = view_wrong {
+            self.bad("view-differs", m);
         }
         // Outside the slot nothing may change.
         let (base, size) = self.slab;
@@ -343,6 +366,42 @@ impl C15World {
                 }
                 talloc::track(|| drop(fut));
             }
+            Edit::WriteOut => {
+                let fd = self.fd.unwrap();
+                use a10::Extract;
+                use std::future::Future;
+                let mut fut = Box::pin(talloc::track(|| fd.write(b).extract()));
+                let w = HWaker::new(9);
+                let mut cx = Context::from_waker(&w.waker);
+                let first = talloc::track(|| fut.as_mut().poll(&mut cx));
+                assert!(first.is_pending());
+                self.enter();
+                let s = simk::with(|k| *k.inflight().last().unwrap());
+                let (sqe, offered) = simk::with(|k| {
+                    let r = k.req(s);
+                    let offered: Vec<u8> = r.foot.iter().filter(|f| f.what == "buffer" && !f.write).flat_map(|f| f.snapshot.clone()).collect();
+                    (r.sqe, offered)
+                });
+                if sqe.opcode() != OP_WRITE || sqe.len() as usize != self.model.len() || (sqe.len() > 0 && sqe.addr() as usize != self.slot_addr) || offered != self.model {
+                    self.bad("write-source", format!("writing the buffer out offers the kernel {offered:02x?} ({}); it holds {:02x?} at {:#x}", sqe.describe(), self.model, self.slot_addr));
+                }
+                simk::with(|k| k.complete(s, Out::Default));
+                self.enter();
+                match talloc::track(|| fut.as_mut().poll(&mut cx)) {
+                    std::task::Poll::Ready(Ok((nb, n))) => {
+                        if n != self.model.len() {
+                            self.bad("write-source", format!("the kernel took {} bytes, the write returned {n}", self.model.len()));
+                        }
+                        b = nb;
+                    }
+                    other => {
+                        let s = format!("{:?}", other.map(|r| r.map(|_| ())));
+                        self.bad("write-failed", format!("writing the buffer out returned {s}"));
+                        return;
+                    }
+                }
+                talloc::track(|| drop(fut));
+            }
             Edit::Scribble => {
                 for (i, v) in b.as_mut_slice().iter_mut().enumerate() {
                     *v = 0x50 + i as u8;
@@ -378,6 +437,7 @@ impl C15World {
             v.push(Edit::ReadMoreVia(via, 1));
         }
         v.push(Edit::Scribble);
+        v.push(Edit::WriteOut);
         // Every range form.
         v.push(Edit::Remove(0, 0, 0, 0));
         for a in &vals {
